@@ -96,12 +96,6 @@ Fixpoint model_ok (c : cfg) (keys : list bytes) (s : store) (sts : list step) : 
 (** ** specification against observation *)
 Definition llock_rec (a : lstate) (k : bytes) : option lockrec := option_map ll_rec (ks_lock (ls_at a k)).
 
-(** the scan the code performs when it cannot see locks of keys without records (known finding C17-F1) *)
-Definition lscan_blind (a : lstate) (start_key : bytes) (include_start : bool) (limit version : N) :=
-  lscan_keys a (filter (fun k => in_range start_key include_start k &&
-                                 negb (match ks_recs (ls_at a k) with [] => true | _ => false end)) (ls_keys a))
-             (scan_read_ts version) (N.to_nat (scan_limit limit)).
-
 (** [strict = true]: the specification; [strict = false]: the specification with blind scans *)
 Fixpoint spec_ok (strict : bool) (keys : list bytes) (a : lstate) (sts : list step) : bool :=
   match sts with
